@@ -273,6 +273,39 @@ def corner_history(rng):
     return h
 
 
+def degenerate_history(rng):
+    m = rng.randint(1, 5)
+    alts = list(range(1, m + 1)) if rng.random() < 0.7 else rng.sample(range(1, 8), m)
+    pool = []
+    for _ in range(rng.randint(1, 4)):
+        v = rand_vote(rng, alts, 0.5, 0.4)
+        pool.append([sorted(c) for c in v])
+    h = []
+    for _ in range(rng.randint(1, 7)):
+        k = rng.choice([K_ARRAY, K_LIST, K_VM, K_LIST, K_VM, K_ORDER])
+        n = rng.choice([0, 0, 1, 1, 1, 2])
+        vs = [rng.choice(pool) for _ in range(n)]
+        if k == K_ORDER:
+            a = list(alts)
+            if rng.random() < 0.5:
+                rng.shuffle(a)
+            h.append([k, a[: rng.randint(1, len(a))]])
+        elif k == K_ARRAY:
+            rows = [[a for c in v for a in c] for v in vs]
+            if len(set(len(r_) for r_ in rows)) > 1:
+                rows = rows[:1]
+            h.append([k, rows])
+        elif k == K_LIST:
+            h.append([k, vs])
+        else:
+            vm = []
+            for v in vs:
+                if all(e[0] != v for e in vm):
+                    vm.append([v, rng.randint(1, 3)])
+            h.append([k, vm])
+    return sprinkle(h, rng, 0.15)
+
+
 def distinct_history(rng):
     m = rng.randint(2, 5)
     alts = rng.sample(range(1, 12), m)
@@ -337,6 +370,10 @@ def generate(tier, seed):
         if i % 2 == 0:
             h = sprinkle(h, rng, 0.3)
         out.append(mk_case(h, rng.randrange(10 ** 9), rnd=1, mode=mode))
+    # degenerate batches (empty list / array / vote map, one vote) mixed with ordinary ones; classes written in
+    # ascending order so that frozenset / range containers apply
+    for i in range(300 if tier == "quick" else 3000):
+        out.append(mk_case(degenerate_history(rng), rng.randrange(10 ** 9), rnd=1, mode="degenerate-batches"))
     # no vote repeated (every multiplicity is 1), maintenance / accessor calls in between
     for i in range(400 if tier == "quick" else 4000):
         out.append(mk_case(distinct_history(rng), rng.randrange(10 ** 9), rnd=1, mode="all-multiplicities-1"))
@@ -447,6 +484,13 @@ def observe(inst, raised, mode=0):
     if d:
         raise RuntimeError("the instance changed when the caller modified the objects returned by full_profile() / "
                            "vote_map() / flatten_strict() (or an accessor is not pure): " + d)
+    import numbers
+    for where, os_ in (("orders", inst.orders), ("multiplicity keys", list(inst.multiplicity))):
+        for o in os_:
+            if not (isinstance(o, tuple) and all(isinstance(c, tuple) and all(isinstance(a, numbers.Integral) for a in c)
+                                                 for c in o)):
+                raise RuntimeError("%s: stored order %r is not a tuple of tuples of integers (the entry points promise "
+                                   "to normalise every vote to that form)" % (where, o))
     mult = [[o, int(k)] for o, k in inst.multiplicity.items()]
     names = [[int(a), proto.text(n)] for a, n in inst.alternatives_name.items()]
     vm = inst.vote_map()
@@ -548,6 +592,43 @@ class _Capture:
         return False
 
 
+def _cls(c, how):
+    """the same indifference class in another container (only where iterating it gives the same sequence)"""
+    c = list(c)
+    if how == 1 and list(frozenset(c)) == c:
+        return frozenset(c)
+    if how == 2 and c == list(range(c[0], c[0] + len(c))):
+        return range(c[0], c[0] + len(c))
+    if how == 3:
+        return list(c)
+    return tuple(c)
+
+
+def _key(o, how, i=0):
+    """a hashable vote-map key for the order o: tuple of tuples / frozensets / ranges (how 3: mixed per class)"""
+    if how == 3:
+        return tuple(_cls(c, (i + j) % 3) for j, c in enumerate(o))
+    return tuple(_cls(c, how) for c in o)
+
+
+def containers_used(op, variant):
+    k, d = op
+    if k == K_VM and d and variant % 4 != 3:
+        how = (variant // 4) % 4
+        keys = [_key(o, how, j) for j, (o, m) in enumerate(d)]
+        out = set()
+        for key in keys:
+            for c in key:
+                if not isinstance(c, tuple):
+                    out.add("vote-map key class as %s%s" % (type(c).__name__, " (multi-member)" if len(c) > 1 else ""))
+        return sorted(out)
+    if k == K_ORDER:
+        return ["append_order given a " + ["tuple", "list", "numpy array", "range"][variant % 4]]
+    if k == K_LIST and d:
+        return ["append_order_list variant %d" % (variant % 7)]
+    return []
+
+
 def apply_op(inst, op, variant, sink=None):
     """returns the resolved operation (populate -> the captured vote map; bare list -> list of orders)"""
     import numpy as np
@@ -566,7 +647,11 @@ def apply_op(inst, op, variant, sink=None):
             poison(inst.vote_map(), variant)
         return op
     if k == K_ORDER:
-        inst.append_order([tuple(d), list(d), np.array(d, dtype=np.int64)][variant % 3])
+        v = variant % 4
+        if v == 3 and d and list(d) == list(range(d[0], d[0] + len(d))):
+            inst.append_order(range(d[0], d[0] + len(d)))
+        else:
+            inst.append_order([tuple(d), list(d), np.array(d, dtype=np.int64), tuple(d)][v])
         return op
     if k == K_ARRAY:
         if d:
@@ -577,11 +662,21 @@ def apply_op(inst, op, variant, sink=None):
         inst.append_order_array(arr)
         return op
     if k == K_LIST:
+        v = variant % 7
         os_ = [_t(o) for o in d]
-        if variant % 3 == 1:
+        if v == 1:
             os_ = tuple(os_)
-        elif variant % 3 == 2:
-            os_ = [tuple(list(c) for c in o) for o in d]      # classes given as lists (re-tupled by the method)
+        elif v == 2:
+            os_ = [tuple(list(c) for c in o) for o in d]      # tuples of lists (re-tupled by the method)
+        elif v == 3:
+            os_ = [[list(c) for c in o] for o in d]           # lists of lists
+        elif v == 4:
+            os_ = [tuple(_cls(c, 1) for c in o) for o in d]   # classes as frozensets where the sequence is the same
+        elif v == 5:
+            os_ = [[_cls(c, 2) for c in o] for o in d]        # classes as ranges where possible
+        elif v == 6:
+            # strict orders as (k, 1) numpy arrays
+            os_ = [np.array(o, dtype=np.int64) if o and all(len(c) == 1 for c in o) else _t(o) for o in d]
         inst.append_order_list(os_)
         return op
     if k == K_VM:
@@ -590,9 +685,10 @@ def apply_op(inst, op, variant, sink=None):
             if variant % 4 == 3:
                 inst.append_vote_map({tuple(tuple(np.int64(a) for a in c) for c in o): np.int64(m) for o, m in d})
             else:
-                inst.append_vote_map({_t(o): np.int64(m) for o, m in d})
+                inst.append_vote_map({_key(o, (variant // 4) % 4, j): np.int64(m) for j, (o, m) in enumerate(d)})
         else:
-            inst.append_vote_map({_t(o): m for o, m in d})
+            # the same votes written with other hashable containers for the classes (tuples / frozensets / ranges)
+            inst.append_vote_map({_key(o, (variant // 4) % 4, j): m for j, (o, m) in enumerate(d)})
         return op
     if k == K_POP:
         which, nv, na, p3, seed = d
@@ -779,6 +875,13 @@ def stats(c, r, m):
     seed = c["payload"][2]
     if any(op[0] == K_VM and op[1] and (seed + i) % 2 == 1 for i, op in enumerate(h)):
         out.append("round 5: vote map with numpy.int64 counts")
+    for i, op in enumerate(h):
+        for lb in containers_used(op, seed + i):
+            out.append("round 6: " + lb)
+        if op[0] in (K_ARRAY, K_LIST, K_VM) and not op[1]:
+            out.append("round 6: empty batch (%s)" % {K_ARRAY: "array", K_LIST: "list", K_VM: "vote map"}[op[0]])
+        if op[0] in (K_ARRAY, K_LIST, K_VM) and len(op[1]) == 1:
+            out.append("round 6: one-vote batch")
     if r.get("interleaved"):
         out.append("round 5: history and twin replayed alternately on two live instances")
     # corners asked for by the coordinator (measured, see the evidence)
